@@ -185,31 +185,88 @@ func mkOutputs(vals []common.Fixed64, ph common.Uint168) []*common2.Output {
 	return outs
 }
 
-func mkInputs(n int) []*common2.Input {
-	ins := make([]*common2.Input, n)
-	for i := range ins {
-		var id common.Uint256
-		id[0] = 0xc0
-		id[1] = byte(i >> 16)
-		id[2] = byte(i >> 8)
-		id[3] = byte(i)
-		ins[i] = &common2.Input{Previous: common2.OutPoint{TxID: id, Index: uint16(i)}, Sequence: 0}
-	}
-	return ins
+// one transaction input of an op line: which previous output it references (id), its Sequence,
+// and the value of that previous output (equal ids must carry equal values)
+type inTok struct {
+	id  int
+	seq uint32
+	val common.Fixed64
 }
 
-func refMap(ins []*common2.Input, vals []common.Fixed64, ph common.Uint168) map[*common2.Input]common2.Output {
-	m := make(map[*common2.Input]common2.Output, len(vals))
-	for i, v := range vals {
-		var in *common2.Input
-		if i < len(ins) {
-			in = ins[i]
-		} else {
-			in = &common2.Input{Previous: common2.OutPoint{Index: uint16(i)}}
+// parseIns reads "<m> id1 seq1 val1 .. idm seqm valm" at t[i:]
+func parseIns(t []string, i int) ([]inTok, int) {
+	m := atoi(t[i])
+	i++
+	if i+3*m > len(t) {
+		panic("harness: short input list")
+	}
+	res := make([]inTok, m)
+	seen := map[int]common.Fixed64{}
+	for k := 0; k < m; k++ {
+		res[k] = inTok{atoi(t[i+3*k]), uint32(atoi(t[i+3*k+1])), f64(t[i+3*k+2])}
+		if v, ok := seen[res[k].id]; ok && v != res[k].val {
+			panic("harness: one outpoint with two values")
 		}
-		m[in] = common2.Output{AssetID: core.ELAAssetID, Value: v, ProgramHash: ph}
+		seen[res[k].id] = res[k].val
+	}
+	return res, i + 3*m
+}
+
+func outPoint(id int) common2.OutPoint {
+	var h common.Uint256
+	h[0] = 0xc0
+	h[1] = byte(id >> 16)
+	h[2] = byte(id >> 8)
+	h[3] = byte(id)
+	return common2.OutPoint{TxID: h, Index: uint16(id)}
+}
+
+func mkInputs(ins []inTok) []*common2.Input {
+	res := make([]*common2.Input, len(ins))
+	for i, in := range ins {
+		res[i] = &common2.Input{Previous: outPoint(in.id), Sequence: in.seq}
+	}
+	return res
+}
+
+// refMap: what UTXOCache.GetTxReference returns for these inputs (keyed by *Input)
+func refMap(inputs []*common2.Input, ins []inTok, ph common.Uint168) map[*common2.Input]common2.Output {
+	m := make(map[*common2.Input]common2.Output, len(ins))
+	for i, in := range ins {
+		m[inputs[i]] = common2.Output{AssetID: core.ELAAssetID, Value: in.val, ProgramHash: ph}
 	}
 	return m
+}
+
+// distinctRefs: the value of every distinct previous output the inputs reference, once each
+func distinctRefs(ins []inTok) []common.Fixed64 {
+	seen := map[int]bool{}
+	var res []common.Fixed64
+	for _, in := range ins {
+		if !seen[in.id] {
+			seen[in.id] = true
+			res = append(res, in.val)
+		}
+	}
+	return res
+}
+
+func insVec(ins []inTok) string {
+	var b strings.Builder
+	b.WriteString(strconv.Itoa(len(ins)))
+	for _, in := range ins {
+		fmt.Fprintf(&b, " %d %d %d", in.id, in.seq, int64(in.val))
+	}
+	return b.String()
+}
+
+// plainIns: one fresh outpoint per value
+func plainIns(vals []int64) []inTok {
+	res := make([]inTok, len(vals))
+	for i, v := range vals {
+		res[i] = inTok{i, 0, common.Fixed64(v)}
+	}
+	return res
 }
 
 // ---------------------------------------------------------------- the interface wrapper (stubs for amount-free checks)
@@ -297,11 +354,11 @@ func classify(e elaerr.ELAError, okv string) string {
 func execFee(t []string) string {
 	setup()
 	outs, i := parseVec(t, 1)
-	refs, _ := parseVec(t, i)
-	ins := mkInputs(len(refs))
+	its, _ := parseIns(t, i)
+	ins := mkInputs(its)
 	tx := functions.CreateTransaction(common2.TxVersion09, common2.TransferAsset, 0, &payload.TransferAsset{},
 		nil, ins, mkOutputs(outs, acct.ProgramHash), 0, nil)
-	rm := refMap(ins, refs, acct.ProgramHash)
+	rm := refMap(ins, its, acct.ProgramHash)
 	return fmt.Sprintf("%d %d", int64(transaction.VerifGetTransactionFee(tx, rm)),
 		int64(blockchain.GetTxFee(tx, core.ELAAssetID, rm)))
 }
@@ -331,8 +388,7 @@ func execFlow(t []string) string {
 	minFee := f64(t[3])
 	special := t[4]
 	outs, i := parseVec(t, 5)
-	refs, _ := parseVec(t, i)
-	nIn := len(refs)
+	its, _ := parseIns(t, i)
 	cfg, height := flowConfig(flags, minFee)
 
 	outPH := acct.ProgramHash
@@ -366,15 +422,17 @@ func execFlow(t []string) string {
 			outputs[0].Payload = &outputpayload.ExchangeVotesOutput{Version: 0, StakeAddress: stakeAddr()}
 		}
 	}
-	ins := mkInputs(nIn)
+	ins := mkInputs(its)
 	var programs []*pg.Program
 	if kind == common2.ExchangeVotes {
 		programs = []*pg.Program{{Code: acct.RedeemScript, Parameter: []byte{}}}
 	}
 	inner := functions.CreateTransaction(common2.TxVersion09, kind, 0, payloadFor(kind), nil, ins, outputs, 0, programs)
 	st := &stubTx{Transaction: inner, kind: kind, afterNFT: strings.Contains(flags, "a"), special: special}
-	rm := refMap(ins, refs, refPH)
-	// UTXO lookup = the r values (public cache API of the node)
+	rm := refMap(ins, its, refPH)
+	// UTXO lookup = the value of each referenced previous output (public cache API of the node;
+	// the cache is keyed by the Input value, so the same outpoint under another Sequence is
+	// another cache line with the same previous output behind it, as a store lookup would give)
 	chain.UTXOCache.CleanCache()
 	for in, o := range rm {
 		oc := o
@@ -479,10 +537,13 @@ func execActCR(t []string) string {
 	return san + " " + ctx + " " + pl
 }
 
-func signedTransfer(outs []common.Fixed64) interfaces.Transaction {
-	in := &common2.Input{Previous: common2.OutPoint{TxID: genesisCB, Index: 0}, Sequence: 0}
+func signedTransfer(outs []common.Fixed64, seqs []uint32) interfaces.Transaction {
+	var ins []*common2.Input
+	for _, q := range seqs {
+		ins = append(ins, &common2.Input{Previous: common2.OutPoint{TxID: genesisCB, Index: 0}, Sequence: q})
+	}
 	tx := functions.CreateTransaction(common2.TxVersion09, common2.TransferAsset, 0, &payload.TransferAsset{},
-		[]*common2.Attribute{}, []*common2.Input{in}, mkOutputs(outs, acct.ProgramHash), 0, []*pg.Program{})
+		[]*common2.Attribute{}, ins, mkOutputs(outs, acct.ProgramHash), 0, []*pg.Program{})
 	buf := new(bytes.Buffer)
 	tx.SerializeUnsigned(buf)
 	sig, err := crypto.Sign(acct.PrivKey(), buf.Bytes())
@@ -498,7 +559,15 @@ func execE2E(t []string) string {
 	mode := t[1]
 	outs, i := parseVec(t, 2)
 	r := f64(t[i])
-	tx := signedTransfer(outs)
+	seqs := []uint32{0}
+	if i+1 < len(t) {
+		k := atoi(t[i+1])
+		seqs = nil
+		for j := 0; j < k; j++ {
+			seqs = append(seqs, uint32(atoi(t[i+2+j])))
+		}
+	}
+	tx := signedTransfer(outs, seqs)
 	chain.UTXOCache.CleanCache()
 	switch mode {
 	case "real":
@@ -506,8 +575,10 @@ func execE2E(t []string) string {
 			panic("harness: e2e real must reference the genesis amount")
 		}
 	case "cache":
-		chain.UTXOCache.InsertReference(tx.Inputs()[0],
-			&common2.Output{AssetID: core.ELAAssetID, Value: r, ProgramHash: acct.ProgramHash})
+		for _, in := range tx.Inputs() {
+			chain.UTXOCache.InsertReference(in,
+				&common2.Output{AssetID: core.ELAAssetID, Value: r, ProgramHash: acct.ProgramHash})
+		}
 	default:
 		panic("harness: e2e mode")
 	}
@@ -520,7 +591,7 @@ func execE2E(t []string) string {
 		ctx = fmt.Sprintf("ok:%d", int64(tx.Fee()))
 	}
 	pool := mempool.NewTxPool(params, ckp)
-	perr := pool.AppendToTxPoolWithoutEvent(signedTransfer(outs))
+	perr := pool.AppendToTxPoolWithoutEvent(signedTransfer(outs, seqs))
 	pl := classify(perr, "ok")
 	return san + " " + ctx + " " + pl
 }
@@ -648,6 +719,38 @@ func genAmounts(r *hx.Rand, minFee int64) (outs, refs []int64) {
 	return
 }
 
+// withDup references one of the previous outputs a second (third) time — with the same or with
+// another Sequence — and re-aims the last output at what the fee helper would see if every
+// reference counted: accepting such a transaction pays out a spent output twice.
+func withDup(r *hx.Rand, its []inTok, outs []int64, minFee int64) ([]inTok, []int64) {
+	if len(its) == 0 {
+		return its, outs
+	}
+	n := 1 + r.Intn(2)
+	for k := 0; k < n; k++ {
+		src := its[r.Intn(len(its))]
+		d := inTok{src.id, src.seq, src.val}
+		if r.Chance(60) {
+			d.seq = src.seq + 1 + uint32(r.Intn(3))
+		}
+		pos := r.Intn(len(its) + 1)
+		its = append(its[:pos], append([]inTok{d}, its[pos:]...)...)
+	}
+	if len(outs) > 0 && r.Chance(80) {
+		tot := uint64(0)
+		for _, in := range its {
+			tot += uint64(in.val)
+		}
+		acc := uint64(0)
+		for _, o := range outs[:len(outs)-1] {
+			acc += uint64(o)
+		}
+		outs = append([]int64(nil), outs...)
+		outs[len(outs)-1] = int64(tot - uint64(minFee) - acc)
+	}
+	return its, outs
+}
+
 func vec(xs []int64) string {
 	var b strings.Builder
 	b.WriteString(strconv.Itoa(len(xs)))
@@ -675,7 +778,11 @@ func gen(g *hx.Gen) {
 	n := g.N(6000, 300000)
 	for i := 0; i < n; i++ {
 		outs, refs := genAmounts(r, 100)
-		g.Emit("fee %s %s", vec(outs), vec(refs))
+		its := plainIns(refs)
+		if r.Chance(15) {
+			its, outs = withDup(r, its, outs, 100)
+		}
+		g.Emit("fee %s %s", vec(outs), insVec(its))
 	}
 	kinds := allKinds()
 	nf := g.N(4000, 120000)
@@ -755,7 +862,11 @@ func gen(g *hx.Gen) {
 			refs = nil
 			outs = []int64{int64(r.Intn(2))}
 		}
-		g.Emit("flow %d %s %d %s %s %s", kind, flags, minFee, special, vec(outs), vec(refs))
+		its := plainIns(refs)
+		if len(its) > 0 && r.Chance(20) {
+			its, outs = withDup(r, its, outs, minFee)
+		}
+		g.Emit("flow %d %s %d %s %s %s", kind, flags, minFee, special, vec(outs), insVec(its))
 	}
 	// output-count limits
 	for _, c := range []int{65535, 65536} {
@@ -764,7 +875,7 @@ func gen(g *hx.Gen) {
 			outs[i] = 1
 		}
 		for _, k := range []common2.TxType{common2.TransferAsset, common2.RegisterProducer, common2.ExchangeVotes} {
-			g.Emit("flow %d m 100 ok %s 1 %d", k, vec(outs), int64(c)+100)
+			g.Emit("flow %d m 100 ok %s 1 0 0 %d", k, vec(outs), int64(c)+100)
 		}
 	}
 	ne := g.N(150, 3000)
@@ -777,14 +888,26 @@ func gen(g *hx.Gen) {
 			mode = "real"
 			rv = genesisAmount
 		}
-		if r.Chance(50) { // re-aim the last output at the single reference
+		// the genesis output referenced once, or several times under the same / other Sequence values
+		seqs := []uint32{0}
+		if r.Chance(25) {
+			for k := 1 + r.Intn(2); k > 0; k-- {
+				seqs = append(seqs, uint32(r.Intn(3)))
+			}
+		}
+		if r.Chance(50) || len(seqs) > 1 { // re-aim the last output at what the fee helper sees
 			acc := uint64(0)
 			for _, o := range outs[:len(outs)-1] {
 				acc += uint64(o)
 			}
-			outs[len(outs)-1] = int64(uint64(rv-minFee+int64(r.Intn(3))-1) - acc)
+			outs[len(outs)-1] = int64(uint64(rv)*uint64(len(seqs)) - uint64(minFee+int64(r.Intn(3))-1) - acc)
 		}
-		g.Emit("e2e %s %s %d", mode, vec(outs), rv)
+		var sb strings.Builder
+		fmt.Fprintf(&sb, "%d", len(seqs))
+		for _, q := range seqs {
+			fmt.Fprintf(&sb, " %d", q)
+		}
+		g.Emit("e2e %s %s %d %s", mode, vec(outs), rv, sb.String())
 	}
 }
 
@@ -835,9 +958,10 @@ func oracle(t []string, out string) *hx.Violation {
 			return nil
 		}
 		outs, i := parseVec(t, 5)
-		refs, _ := parseVec(t, i)
+		its, _ := parseIns(t, i)
 		acc := f[0] == "ok" && (strings.HasPrefix(f[1], "ok:") || f[1] == "end")
-		return judge(acc, outs, refs, "flow(kind "+t[1]+")")
+		// every DISTINCT previous output counts once, however often the inputs reference it
+		return judge(acc, outs, distinctRefs(its), "flow(kind "+t[1]+")")
 	case "e2e":
 		if len(f) != 3 {
 			return nil
